@@ -616,4 +616,19 @@ theorem stringsIndex_sep {d : Delims} (hd : d.BytesOK) (s : String) :
   simp only [unlexTok, Nat.zero_add] at this
   rw [Go.stringsIndex, String.toList_ofList, this, findSep_eq_findTokG]
 
+/-- `strings.Index` of the prefix, counted from `n` (as `indexAfter` uses it) -/
+theorem stringsIndexC_pre {d : Delims} (hd : d.BytesOK) (x : List Char) (n : Nat) :
+    Go.stringsIndexC d.pre x n
+      = (match findPre (lex d x) with
+         | none => -1
+         | some (b, _) => ((n + (unlex d b).length : Nat) : Int)) := by
+  have := stringsIndexC_eq_findTok hd.1.1 .pre (Or.inl rfl) (by
+    intro y hy hne c hc
+    rcases hy with rfl | rfl | rfl
+    · exact absurd rfl hne
+    · exact hd.2.1 c (List.mem_append_left _ hc)
+    · exact hd.2.1 c (List.mem_append_right _ hc)) x.length x (Nat.le_refl _) n
+  simp only [unlexTok] at this
+  rw [this, findPre_eq_findTokG]
+
 end Ytk.Resolver
